@@ -232,3 +232,71 @@ Proof.
   - left. exact G.
   - right. split; [reflexivity | exact G].
 Qed.
+
+(* ---------- a failure is never reported to the observer that raised ---------- *)
+Lemma report_not_to_self f : forall os e o b,
+  In (Del o (Err b)) (publish f os e) -> (e = Err b /\ exists x, In x os /\ oid x = o) \/ o <> b.
+Proof.
+  induction f as [|f IH]; intros os e o b H; [destruct H|]. cbn [publish] in H. apply in_app_or in H.
+  destruct H as [H | H].
+  - apply in_map_iff in H. destruct H as (x & E & Hx). inversion E; subst. left. split; [reflexivity|]. eauto.
+  - apply in_flat_map in H. destruct H as (x & _ & H). apply IH in H. destruct H as [[E (y & Hy & Ey)] | H]; [|right; exact H].
+    right. inversion E; subst. unfold others in Hy. apply filter_In in Hy. destruct Hy as [_ Hy].
+    apply negb_true_iff in Hy. apply Nat.eqb_neq in Hy. exact Hy.
+Qed.
+
+Lemma never_reported_to_self f os n o b : In (Del o (Err b)) (publish f os (Ev n)) -> o <> b.
+Proof. intros H. apply report_not_to_self in H. destruct H as [[E _] | H]; [discriminate | exact H]. Qed.
+
+(* ---------- EXTENSION: live dispatch ---------- *)
+Definition adds_only (tab : list lobs) : Prop := forall i o, lact (lget tab i) <> ORemove o.
+Definition dlv_obs (d : dlv) : nat := match d with Del o _ => o end.
+
+Lemma apply_act_adds tab i os : adds_only tab -> exists ext, apply_act (lact (lget tab i)) os = os ++ ext.
+Proof.
+  intros H. specialize (H i). destruct (lact (lget tab i)) as [|o|o]; cbn.
+  - exists []. rewrite app_nil_r. reflexivity.
+  - destruct (memb o os); [exists []; rewrite app_nil_r; reflexivity | exists [o]; reflexivity].
+  - exfalso. exact (H o eq_refl).
+Qed.
+
+Lemma skipn_nth {A} (l : list A) : forall i x, nth_error l i = Some x -> skipn i l = x :: skipn (S i) l.
+Proof.
+  induction l as [|y l IH]; intros [|i] x H; cbn in *; try discriminate.
+  - inversion H. reflexivity.
+  - apply IH. exact H.
+Qed.
+
+(** when observers only ADD observers during a dispatch, the live iteration delivers the event to every observer of
+    the final list exactly once, in list order — the listed ones first (the list only grows at the end), then
+    the ones added meanwhile *)
+Lemma dispatch_live_adds tab n : adds_only tab -> forall f i os os' ds br,
+  dispatch_live tab f i os n = (os', ds, br, false) ->
+  (exists ext, os' = os ++ ext) /\ map dlv_obs ds = skipn i os' /\ Forall (fun d => d = Del (dlv_obs d) (Ev n)) ds.
+Proof.
+  intros Ha. induction f as [|f IH]; intros i os os' ds br H; cbn [dispatch_live] in H.
+  - destruct (nth_error os i) eqn:E; inversion H; subst. split; [exists []; rewrite app_nil_r; reflexivity|].
+    split; [|constructor]. apply nth_error_None in E. rewrite skipn_all2 by exact E. reflexivity.
+  - destruct (nth_error os i) as [o|] eqn:E.
+    + destruct (apply_act_adds tab o os Ha) as [e1 E1]. rewrite E1 in H.
+      destruct (dispatch_live tab f (S i) (os ++ e1) n) as [[[os2 ds2] br2] oo] eqn:Ed.
+      inversion H; subst. destruct (IH _ _ _ _ _ Ed) as ((e2 & E2) & Hm & Hf).
+      split; [exists (e1 ++ e2); rewrite E2, app_assoc; reflexivity|]. split.
+      * cbn [map dlv_obs]. rewrite Hm. symmetry. apply skipn_nth.
+        rewrite E2, <- app_assoc. rewrite nth_error_app1; [exact E|]. apply nth_error_Some. congruence.
+      * constructor; [reflexivity | exact Hf].
+    + inversion H; subst. split; [exists []; rewrite app_nil_r; reflexivity|].
+      split; [|constructor]. apply nth_error_None in E. rewrite skipn_all2 by exact E. reflexivity.
+Qed.
+
+Lemma dispatch_live_adds_all tab n os os' ds br f :
+  adds_only tab -> dispatch_live tab f 0 os n = (os', ds, br, false) ->
+  map dlv_obs ds = os' /\ exists ext, os' = os ++ ext.
+Proof. intros Ha H. destruct (dispatch_live_adds tab n Ha f 0 os os' ds br H) as (A & B & _). split; [exact B | exact A]. Qed.
+
+(** ... but a REMOVAL during the dispatch shifts the list under the iterator: observer 0 removes itself and observer 1,
+    which stays registered, never sees the event (the C11/F2 phenomenon; outside the property's quantifier) *)
+Lemma live_removal_skips :
+  dispatch_live [mkL false false (ORemove 0); mkL false false ONone; mkL false false ONone] 10 0 [0; 1; 2] 7
+  = ([1; 2], [Del 0 (Ev 7); Del 2 (Ev 7)], [], false).
+Proof. vm_compute. reflexivity. Qed.
